@@ -684,6 +684,58 @@ func ruleCacheKey(c *Ctx, r *Repo, rule string) {
 			missing = "lookup key " + l + " differs from store key " + storeKey
 		}
 	}
+	// a miss constructs and stores, a hit uses the stored entry: on every path that goes on to ask the entry for
+	// its template, "entry present" false is followed by a NewRemoteTemplate call (never by the absent, nil,
+	// entry) and "entry present" true is not (mechanical-mutation finding: the comma-ok test negated makes the
+	// first custom-template file of a run call a method on a nil *RemoteTemplate)
+	{
+		nMiss, nHit := 0, 0
+		// the function's own paths and those of every loop body in it (the cache sits in the loop over the schemes)
+		allPaths := enumOnce(info, fd)
+		ast.Inspect(fd.Body, func(n ast.Node) bool {
+			var body *ast.BlockStmt
+			switch l := n.(type) {
+			case *ast.RangeStmt:
+				body = l.Body
+			case *ast.ForStmt:
+				body = l.Body
+			}
+			if body != nil {
+				d := newDT(info)
+				d.paths = nil
+				d.stmts(seedEnv(d, fd), body.List, func(p *dtPath) { d.finish(p, "end") })
+				allPaths = append(allPaths, d.paths...)
+			}
+			return true
+		})
+		for _, p := range allPaths {
+			present, seen := false, false
+			for _, a := range p.Atoms {
+				if strings.Contains(a.Expr, "remoteTemplateCache[") && (strings.HasSuffix(a.Expr, "]#ok") || strings.HasSuffix(a.Expr, "] == nil")) {
+					seen = true
+					present = a.Val
+					if strings.HasSuffix(a.Expr, "] == nil") {
+						present = !a.Val
+					}
+				}
+			}
+			if os.Getenv("MVCHECK_DEBUG") != "" {
+				fmt.Println("R12.3 cache path:", seen, present, p.String())
+			}
+			if !seen {
+				continue
+			}
+			built := hasStep(p, "NewRemoteTemplate(") > 0
+			if present {
+				nHit++
+				c.Check(!built, rule, "getTemplate|cache-hit-uses-entry", r.Pos(pos), "a cache hit uses the stored entry", "on a cache hit getTemplate builds a new RemoteTemplate instead of using the stored one: the template and schema are retrieved again for every output file")
+			} else {
+				nMiss++
+				c.Check(built, rule, "getTemplate|cache-miss-constructs", r.Pos(pos), "a cache miss constructs the entry", "on a cache miss getTemplate goes on with the absent (nil) entry instead of constructing one: the first output file that uses a custom template calls a method on a nil *RemoteTemplate (unrecovered panic)")
+			}
+		}
+		c.Check(nMiss > 0 && nHit > 0, rule, "getTemplate|cache-paths", r.Pos(pos), "hit and miss paths of the cache found", fmt.Sprintf("cannot find the hit (%d) and miss (%d) paths of the remote-template cache in getTemplate", nHit, nMiss))
+	}
 	c.Check(missing == "", rule, "getTemplate|cache-key", r.Pos(pos), "cache key covers every constructor argument: "+storeKey, fmt.Sprintf("the remote-template cache entry is built from %v but keyed by %s (%s is not part of the key): two files that agree on the key and differ in that value share whichever entry was created first, and files are rendered in map order, so the run is not deterministic", ctorArgs, storeKey, missing))
 }
 
